@@ -110,7 +110,11 @@ pub async fn add(
 
     debug!("Parsing peers from PeersArgs");
 
-    peers_args.addrs.extend(PeersArgs::read_addr_from_env());
+    // The first node of a network has no peers to contact: antnode refuses `--peer` together
+    // with `--first`, and `PeersArgs::get_bootstrap_addr` ignores the environment for it too.
+    if !peers_args.first {
+        peers_args.addrs.extend(PeersArgs::read_addr_from_env());
+    }
     peers_args.bootstrap_cache_dir = bootstrap_cache_dir;
 
     let options = AddNodeServiceOptions {
